@@ -626,3 +626,74 @@ Proof.
   exists s. repeat split; auto; try apply Ht; try lia.
   apply iter_done_ok in C. destruct C as (_ & _ & _ & <-). eapply top_tape_prefix; eauto.
 Qed.
+
+(* ------------------------------------------------------------------ prefixes; transfer to any parser with the same observations *)
+(* number of bytes of D the whole run has consumed when it stands in s *)
+Definition pos (D : bytes) (s : st) : nat := length D - length (s_data s).
+
+Lemma obs_ok_inv : forall (x y : outcome tape) t, obs x = obs y -> y = Ok t -> x = Ok t.
+Proof. intros x y t H ->. destruct x; cbn in H; try discriminate. now inversion H. Qed.
+
+Lemma obs_err_inv : forall (x y : outcome tape), obs x = obs y -> (exists e, y = Err e) -> exists e, x = Err e.
+Proof. intros x y H [e ->]. destruct x; cbn in H; try discriminate. eauto. Qed.
+
+Section Transfer.
+  (* P: any interpretation of BinaryTapeParser::parse observationally equal to the reference one *)
+  Variable P : bytes -> outcome tape.
+  Hypothesis P_obs : forall d, obs (P d) = obs (parse_ref d).
+
+  Lemma cut_arith : forall D k s, k <= length D -> runs (init D) s ->
+    (pos D s <= k <= pos D s + 1 <-> length D - k <= length (s_data s) <= length D - k + 1).
+  Proof. intros D k s Hk H. apply runs_data_le in H. cbn in H. unfold pos. lia. Qed.
+
+  Theorem trunc_gen : forall D F k, k <= length D -> P D = Ok F ->
+    (exists e, P (firstn k D) = Err e) \/
+    (exists s, runs (init D) s /\ top s /\ pos D s <= k <= pos D s + 1 /\
+               P (firstn k D) = Ok (s_tape s) /\ exists rest, F = s_tape s ++ rest).
+  Proof.
+    intros D F k Hk HF. assert (HR : parse_ref D = Ok F) by (eapply obs_ok_inv; [symmetry; apply P_obs|exact HF]).
+    rewrite firstn_chop.
+    destruct (trunc_bin_ref_prefix D F (length D - k) HR) as [He|(s & A & B & C & E & G)]; [lia| |].
+    - left. eapply obs_err_inv; [apply P_obs|exact He].
+    - right. exists s. split; auto. split; auto. split; [apply cut_arith; auto|].
+      split; auto. eapply obs_ok_inv; [apply P_obs|exact E].
+  Qed.
+
+  Theorem trunc_gen_ok : forall D F k t, k <= length D -> P D = Ok F -> P (firstn k D) = Ok t ->
+    exists s, runs (init D) s /\ top s /\ pos D s <= k <= pos D s + 1 /\ t = s_tape s /\ exists rest, F = t ++ rest.
+  Proof.
+    intros D F k t Hk HF Ht. destruct (trunc_gen D F k Hk HF) as [[e He]|(s & A & B & C & E & G)]; [congruence|].
+    exists s. rewrite Ht in E. inversion E; subst. auto.
+  Qed.
+
+  Theorem trunc_gen_not_top : forall D k s, k <= length D -> runs (init D) s -> pos D s <= k <= pos D s + 1 ->
+    ~ top s -> exists e, P (firstn k D) = Err e.
+  Proof.
+    intros D k s Hk H Hc Hn. eapply obs_err_inv; [apply P_obs|]. exists E_Eof. rewrite firstn_chop.
+    eapply trunc_not_top; eauto. now apply cut_arith.
+  Qed.
+
+  Theorem trunc_gen_in_payload : forall D k s s2, runs (init D) s -> iter false false s = Continue s2 ->
+    pos D s + 2 <= k < pos D s2 -> exists e, P (firstn k D) = Err e.
+  Proof.
+    intros D k s s2 H Hi Hc. eapply obs_err_inv; [apply P_obs|]. exists E_LexEof. rewrite firstn_chop.
+    pose proof (runs_data_le _ _ H) as L. pose proof (iter_consumes _ _ Hi). cbn in L. unfold pos in Hc.
+    eapply trunc_in_payload; eauto; lia.
+  Qed.
+
+  Theorem trunc_gen_at_top : forall D k s, k <= length D -> runs (init D) s -> pos D s <= k <= pos D s + 1 ->
+    top s -> P (firstn k D) = Ok (s_tape s).
+  Proof.
+    intros D k s Hk H Hc Ht. eapply obs_ok_inv; [apply P_obs|]. rewrite firstn_chop.
+    eapply trunc_at_top; eauto. now apply cut_arith.
+  Qed.
+End Transfer.
+
+Lemma obs_ref_ref : forall d, obs (parse_ref d) = obs (parse_ref d).
+Proof. reflexivity. Qed.
+
+Lemma obs_fixed_ref : forall d, obs (parse true true d) = obs (parse_ref d).
+Proof. intro d. rewrite fast_eq_ref_fixed. now rewrite ref_fx_irrelevant. Qed.
+
+Lemma obs_code_ref : fast_path_excludes_i64 = true -> forall d, obs (parse_opt d) = obs (parse_ref d).
+Proof. intros E d. unfold parse_opt. rewrite E. apply obs_fixed_ref. Qed.
